@@ -338,8 +338,8 @@ def load_findings(prop):
     if os.path.exists(path):
         for line in open(path):
             line = line.strip()
-            if not line or line.startswith("#"):
-                continue
+            if not line or line.startswith("#") or line.startswith("fixed:"):
+                continue     # "fixed: property=<id> <commit> <what failed>" lines suppress nothing
             e = json.loads(line)
             if e.get("property") == prop:
                 res.append(e)
